@@ -110,6 +110,10 @@ def oracle_fit(case):
 def path_case(draw):
     s = draw(E.est_spec(classes=E.SPARSE, iter_max=2, d_max=4))
     s["alpha"] = draw(st.sampled_from([0.05, 0.5, 2.0]))
+    if draw(st.booleans()):
+        s["verbose"] = True  # the path prints a lot: its verbose branches are code paths like any other
+    if s.get("batch_size") is not None and draw(st.booleans()):
+        s["batch_size"] = max(1, s["n"] // draw(st.integers(2, 3)))  # several batches per epoch
     return {"spec": s, "mlcl": draw(mlcl_arg(s["n"])), "dseed": draw(gens.seeds),
             "path": {"alpha_multiplier": draw(st.sampled_from([1.5, 3.0])), "min_features": draw(st.integers(1, 2)),
                      "max_patience": draw(st.integers(1, 3))}}
